@@ -35,3 +35,7 @@ Definition vpos_try_from (c u : N) : option N :=
 (* lexicographic order on (compressed, uncompressed) pairs *)
 Definition lex_lt (a b : N * N) : Prop :=
   fst a < fst b \/ (fst a = fst b /\ snd a < snd b).
+
+(* Ord on VirtualPosition is Ord on the u64: 0 = Less, 1 = Equal, 2 = Greater *)
+Definition vpos_cmp (a b : N) : N :=
+  match a ?= b with Lt => 0 | Eq => 1 | Gt => 2 end.
